@@ -159,12 +159,16 @@ class C16(Prop):
             plan["tag"] = "twin/%d/%s" % (kind, transport)
         elif case == "options":
             kind = (idx // 7) % 4
+            if kind in (0, 1) and rng.random() < 0.5:
+                # the invalid value must be rejected whatever the model: also when it has no finite optimum
+                solve["peer"]["script"] = {"1": {"action": "status", "status": rng.choice(NOVALUE_STATUSES)}}
             if kind == 0:
                 solve["cfg"]["mode"] = rng.choice(["Dual", "both", "", "PRIMAL", "duall"])
                 solve["_expect"] = "raise"
                 ops.append(solve)
             elif kind == 1:
-                solve["cfg"]["heuristic"] = rng.choice(["Trace", "logdet", "logdetx", "rank", "logdet1.5", "trace2"])
+                solve["cfg"]["heuristic"] = rng.choice(["Trace", "logdet", "logdetx", "rank", "logdet1.5", "trace2",
+                                                        "logdet-3", "logdet0x"])
                 solve["_expect"] = "raise"
                 ops.append(solve)
             elif kind == 2:
